@@ -22,10 +22,29 @@ func VerifC19Confined() {
 	if vrt_Tier() > 0 {
 		maxLen = 6
 	}
-	n := 1 + vrt_Choose("nameLen", maxLen)
-	nameB := vrt_Bytes("name", n)
-	vNoEsc(nameB)
 	phone := vrt_Bytes("phone", 6)
+	var nameB []byte
+	n := 0
+	if vrt_Choose("nameFamily", 2) == 0 {
+		// dense: every byte of a short name free
+		n = 1 + vrt_Choose("nameLen", maxLen)
+		nameB = vrt_Bytes("name", n)
+	} else {
+		// structured: names built around the terminal's own directory name (sibling directories that
+		// share the phone as a prefix, paths that leave and re-enter), with symbolic separators
+		digits := make([]byte, 0, 12)
+		for _, b := range phone {
+			digits = append(digits, '0'+b>>4, '0'+b&0x0f)
+		}
+		pre := []string{"../", "./../", "../../", "/"}[vrt_Choose("prefix", 4)]
+		nameB = append([]byte(pre), digits...)
+		nameB = append(nameB, vrt_Bytes("suffix", vrt_Choose("suffixLen", 3))...)
+		if vrt_Choose("tail", 2) == 1 {
+			nameB = append(nameB, '/', 'x')
+		}
+		n = len(nameB)
+	}
+	vNoEsc(nameB)
 	vNoEsc(phone)
 	// a phone that renders as 12 decimal digits
 	for _, b := range phone {
